@@ -575,12 +575,12 @@ static std::string oracle(World& w, const Snap& b, const std::string& op, const 
             for (size_t j = 0; j < b.pt[i].size(); j++)
                 if (a.pt[i][j] != (mem ? m.get(b.pt[i][j]) : b.pt[i][j])) {
                     m.clear();
-                    return "remap shape tag cell " + hx(i);
+                    return "remap-shape-tag cell " + hx(i);
                 }
             for (size_t j = 0; j < b.lt[i].size(); j++)
                 if (a.lt[i][j] != (mem ? m.get(b.lt[i][j]) : b.lt[i][j])) {
                     m.clear();
-                    return "remap label tag cell " + hx(i);
+                    return "remap-label-tag cell " + hx(i);
                 }
         }
         m.clear();
@@ -596,7 +596,7 @@ static std::string oracle(World& w, const Snap& b, const std::string& op, const 
         for (auto& p : st) s1.push_back(hx(p.first) + ":" + hx(p.second));
         for (auto& p : lt) s2.push_back(hx(p.first) + ":" + hx(p.second));
         std::string want = "ST[" + join(s1) + "]LT[" + join(s2) + "]";
-        if (d.tg != want) return "tags expected " + want;
+        if (d.tg != want) return "tag-query expected " + want;
     }
     return "";
 }
@@ -1078,7 +1078,8 @@ static void gen_case(Out& out, Rng& g, bool legit) {
         if (nd.q.find('X') != std::string::npos) out.count("dumps-with-cyclic-crash");
         if (oracle_on && pres.empty()) {
             std::string f = oracle(w, before, op, nd);
-            if (!f.empty()) pres = "c16-step" + std::to_string(step) + "-" + words(op)[0] + " after `" + op + "`: " + f;
+            // finding key = first word of the failure text (stable across seeds)
+            if (!f.empty()) pres = "c16-" + words(f)[0] + " step " + std::to_string(step) + " after `" + op + "`: " + f;
         }
     }
     out.count(legit ? "histories:within-preconditions" : "histories:arbitrary");
